@@ -13,6 +13,7 @@ import time
 
 import apps
 import core
+import gen
 import track_checks
 
 RXF = (52.0, 4.0)
@@ -36,9 +37,10 @@ def asks_to_quit(data):
     return b"q" in data or re.search(rb"(?<!\x1b)\x03", data) is not None
 
 
-def session(bindir, steps, tag, size=(24, 80), touch=False, filter_time=120, quit_at_end=True, scale=None):
+def session(bindir, steps, tag, size=(24, 80), touch=False, filter_time=120, quit_at_end=True, scale=None, options=()):
     """steps: list of ("key", name) / ("keys", [names]) burst / ("mouse", kind, col, row) / ("raw", bytes) /
-    ("resize", rows, cols) / ("arrive", with_position) / ("wait", seconds) / ("frame",)"""
+    ("resize", rows, cols) / ("arrive", with_position) / ("junk", bytes: a line of the feed that is no frame) /
+    ("wait", seconds) / ("frame",); options: further command-line options"""
     rng = random.Random(hash(tag) & 0xFFFFFFF)
     srv = apps.FeedServer([{"segments": [], "interactive": True}])
     srv.start()
@@ -47,6 +49,7 @@ def session(bindir, steps, tag, size=(24, 80), touch=False, filter_time=120, qui
         args.append("--touchscreen")
     if scale is not None:
         args += ["--scale", str(scale)]
+    args += list(options)
     rd = apps.Radar(bindir, srv.port, args, size=size)
     quit_sent = 0
     try:
@@ -80,6 +83,9 @@ def session(bindir, steps, tag, size=(24, 80), touch=False, filter_time=120, qui
             elif k == "arrive":
                 srv.push(aircraft_lines(rng, st[1]))
                 rd.wait_frames(n + 5, 3)
+            elif k == "junk":
+                srv.push(st[1])
+                rd.wait_frames(n + 2, 2)
             elif k == "samespot":
                 lat, lon = RXF[0] + 0.31, RXF[1] + 0.47
                 for _ in range(st[1]):
@@ -343,8 +349,12 @@ def random_session(rng, i):
                           rng.randrange(0, size[1] + 3), rng.randrange(0, size[0] + 3)))
         elif r < 0.93:
             steps.append(("resize",) + rng.choice([(24, 80), (1, 1), (5, 5), (2, 30), (60, 200), (10, 10), (24, 12)]))
-        elif r < 0.97:
+        elif r < 0.96:
             steps.append(("arrive", rng.random() < 0.7))
+        elif r < 0.975:
+            # "any traffic": lines that are no frames (empty, too short, not hex, not ASCII, all zero, of another format)
+            import feed_checks
+            steps.append(("junk", rng.choice(feed_checks.MALFORMED + [b"*" + bytes(gen.rnd_frame(rng, rng.choice(sorted(gen.SUPPORTED)))).hex().encode() + b";\n"])))
         else:
             steps.append(("raw", rng.choice((b"\x1b[<0;500;500M", b"\x1b[99~", b"\x00", b"\x1b[<64;1;1M", b"\xc3\xa9", b"\x1b[1;5A"))))
         # keys and mouse events arriving together, handled in one go before the next draw (what was drawn last and what
@@ -361,8 +371,20 @@ def random_session(rng, i):
     if rng.random() < 0.25:
         steps.append(("keys", [rng.choice(KEYNAMES) for _ in range(rng.randrange(0, 2))] + [rng.choice(("q", "CtrlC"))]
                       + [rng.choice(KEYNAMES) for _ in range(rng.randrange(1, 4))]))
+    # option combinations (display toggles, parsing limited to extended squitters, range, scale)
+    options = []
+    for o in ("--limit-parsing", "--disable-lat-long", "--disable-callsign", "--disable-icao", "--disable-heading", "--disable-track"):
+        if rng.random() < 0.2:
+            options.append(o)
+    if rng.random() < 0.15:
+        options += ["--max-range", str(rng.choice((0, 1, 50, 500, 100000)))]
+    if rng.random() < 0.15:
+        options += ["--locations", "(HOME,%s,%s)" % (RXF[0] + 0.3, RXF[1] - 0.4), "(FAR,-89.9,179.9)"]
+    if options and not any(s_[0] == "junk" for s_ in steps) and "--limit-parsing" in options:
+        import feed_checks
+        steps.insert(rng.randrange(len(steps) + 1), ("junk", rng.choice(feed_checks.MALFORMED)))
     return dict(steps=steps, tag=f"random{i}", size=size, touch=rng.random() < 0.4, filter_time=rng.choice((120, 120, 1, 0)),
-                quit_at_end=rng.random() < 0.8)
+                quit_at_end=rng.random() < 0.8, options=options)
 
 
 def model_sessions(tier, rep, rng, count):
@@ -576,7 +598,7 @@ def run(prop, tier, seed, rep):
             w = {"kind": "ui", "event": {k2: ev[k2] for k2 in ev if k2 not in ("planes",)}}
             if "steps" in job:
                 w["session"] = {"steps": [[x.decode("latin-1") if isinstance(x, bytes) else x for x in s_] for s_ in job["steps"]],
-                                "size": job["size"], "touch": job["touch"], "filter_time": job["filter_time"]}
+                                "size": job["size"], "touch": job["touch"], "filter_time": job["filter_time"], "options": list(job.get("options", ()))}
             rep.mismatch(owner, cls, field, w)
     json.dump(summary, open(os.path.join(core.BUILD, f"last_{prop}_verdicts.json"), "w"), indent=1, sort_keys=True)
     if tier == "thorough":
